@@ -26,6 +26,9 @@ type Mutant struct {
 	ExpectConstruct string // substring of the reported construct
 }
 
+// A File of the form "patch:<path under /verif>" denotes a stored unified diff (a seeded change)
+// that is applied to copies of the files it touches instead of an Old/New substitution.
+
 var mutants []Mutant
 
 func addMutants(ms ...Mutant) { mutants = append(mutants, ms...) }
@@ -43,6 +46,9 @@ func mutantOverlay(repo, name string) (map[string][]byte, error) {
 	m := findMutant(name)
 	if m == nil {
 		return nil, fmt.Errorf("no such mutant %s", name)
+	}
+	if strings.HasPrefix(m.File, "patch:") {
+		return patchOverlay(repo, strings.TrimPrefix(m.File, "patch:"))
 	}
 	path := filepath.Join(repo, m.File)
 	src, err := os.ReadFile(path)
@@ -144,4 +150,55 @@ func runSelfTest(repo, id string) (fired, total int, notes []string, bad []strin
 	}
 	wg.Wait()
 	return
+}
+
+// patchOverlay applies a stored unified diff to temporary copies of the files it touches and
+// returns their patched contents keyed by their path in the repository (nothing under /repo is written).
+func patchOverlay(repo, patch string) (map[string][]byte, error) {
+	exe, _ := os.Executable()
+	verif := filepath.Dir(filepath.Dir(exe))
+	pfile := filepath.Join(verif, patch)
+	diff, err := os.ReadFile(pfile)
+	if err != nil {
+		return nil, err
+	}
+	var files []string
+	for _, line := range strings.Split(string(diff), "\n") {
+		if strings.HasPrefix(line, "+++ b/") {
+			files = append(files, strings.TrimPrefix(line, "+++ b/"))
+		}
+	}
+	if len(files) == 0 {
+		return nil, fmt.Errorf("no files in %s", patch)
+	}
+	tmp, err := os.MkdirTemp("", "zedcheck-seed-")
+	if err != nil {
+		return nil, err
+	}
+	defer os.RemoveAll(tmp)
+	for _, f := range files {
+		src, err := os.ReadFile(filepath.Join(repo, f))
+		if err != nil {
+			return nil, err
+		}
+		os.MkdirAll(filepath.Dir(filepath.Join(tmp, f)), 0o755)
+		if err := os.WriteFile(filepath.Join(tmp, f), src, 0o644); err != nil {
+			return nil, err
+		}
+	}
+	cmd := exec.Command("git", "apply", "-p1", pfile)
+	cmd.Dir = tmp
+	cmd.Env = append(os.Environ(), "GIT_CEILING_DIRECTORIES="+filepath.Dir(tmp), "GIT_DIR=/nonexistent")
+	if out, err := cmd.CombinedOutput(); err != nil {
+		return nil, fmt.Errorf("seeded patch no longer applies: %s", strings.TrimSpace(string(out)))
+	}
+	overlay := map[string][]byte{}
+	for _, f := range files {
+		b, err := os.ReadFile(filepath.Join(tmp, f))
+		if err != nil {
+			return nil, err
+		}
+		overlay[filepath.Join(repo, f)] = b
+	}
+	return overlay, nil
 }
